@@ -89,10 +89,20 @@ class RngRun:
             self.h.update(b"seed" + repr(k).encode())
             return self.rs.seed(*args, **kwargs)
         out = getattr(self.rs, name)(*args, **kwargs)
-        if self.extremes and name in ("random", "rand", "random_sample") and self.n in self.extremes:
-            if not isinstance(out, np.ndarray):
-                out = float(self.extremes[self.n])
-                self.extremes_fired += 1
+        if self.extremes and name in ("random", "rand", "random_sample"):
+            # fault kind rng.extreme: a legal but extreme uniform output (0.0 or 1-2^-53) at a seeded subset of draws.
+            # The stream position is unchanged (the draw above was made), only the returned value is replaced.
+            h = hashlib.blake2b(f"{self.extremes.get('seed', 0)}:{self.n}".encode(), digest_size=4).digest()
+            if int.from_bytes(h, "big") / 2**32 < self.extremes.get("rate", 0.0):
+                val = (0.0, 1.0 - 2.0**-53)[h[0] & 1]
+                if isinstance(out, np.ndarray):
+                    if out.size:
+                        out = out.copy()
+                        out.flat[h[1] % out.size] = val
+                        self.extremes_fired += 1
+                else:
+                    out = val
+                    self.extremes_fired += 1
         if name in ("get_state", "set_state", "shuffle"):
             d = b"-"
         else:
